@@ -537,7 +537,12 @@ class Pair:
 
     def add_media(self, p, item):
         """Configuration change between calls (only used while p is stable)."""
-        self._add_media(self.pc[p], item)
+        try:
+            self._add_media(self.pc[p], item)
+        except Exception:
+            # not a judged call: e.g. the connection is closed although signalingState (on a
+            # broken tree) says otherwise - the judged calls around it expose that
+            return
         self.media.append([len(self.calls), p, item])
         if self.lastO[p] is not None:
             self.lastO[p].ep = -2     # an offer created before the change is not used in a legal call
